@@ -31,8 +31,8 @@ CMP_COQ = {"=": "CEq", "<": "CLt", "<=": "CLe", ">": "CGt", ">=": "CGe"}
 # The others describe the code with repairs reverted and exist only for regression experiments on scratch copies:
 # "pre4" (766ce6b, 21e37aa, 79488b4, 596613e reverted), "ortab"/"njunc"/"nnull"/"ninfo" (pre4 + one of them),
 # "prequote" (also 60fb795 reverted), "legacy" (everything reverted).
-DEFAULT_VARIANT = "current"
-LABEL_FN = {"current": "case_labels", "pre4": "case_labels_pre4", "prequote": "case_labels_prequote", "legacy": "case_labels_legacy",
+DEFAULT_VARIANT = "bestfix"   # /repo since b724954 (BestFitQuery without the trailing semicolon); "current" = the tree before it
+LABEL_FN = {"current": "case_labels", "bestfix": "case_labels_bestfix", "slicefix": "case_labels_slicefix", "bothfix": "case_labels_bothfix", "pre4": "case_labels_pre4", "prequote": "case_labels_prequote", "legacy": "case_labels_legacy",
             "ortab": "case_labels_ortab", "ninfo": "case_labels_ninfo", "nnull": "case_labels_nnull", "njunc": "case_labels_njunc"}
 
 KNOWN_CLASSES = {     # label bits of Model.case_labels that may excuse a failure (only live findings)
@@ -40,6 +40,20 @@ KNOWN_CLASSES = {     # label bits of Model.case_labels that may excuse a failur
     512: "like-semantics",
     2048: "path-segment-shadows-query-attribute",
 }
+
+
+def fit_attr(f, attr):
+    """the column `attr` of an abstract fit"""
+    if attr == "max_log_likelihood":
+        return f["mll"]
+    if attr == "parent_id":
+        return f["parent"]
+    return f[attr]
+
+
+def null_key(v):
+    """SQLite: NULL sorts before every value (ASC), after every value under DESC (= reverse of this key)"""
+    return (0, 0) if v is None else (1, v)
 
 
 def class_path(name):
@@ -114,6 +128,8 @@ def gen_domain(rng):
 
 def gen_db(rng, thorough, want_children=None, for_order=False):
     n = rng.randint(1, 12 if thorough else 8)
+    if rng.random() < 0.2:
+        n = rng.randint(8, 12)           # enough fits beyond the window of a slice
     if rng.random() < 0.04:
         n = 1
     elif n == 1 and rng.random() < 0.7:
@@ -121,7 +137,9 @@ def gen_db(rng, thorough, want_children=None, for_order=False):
     fits = []
     dom = gen_domain(rng)
     children = rng.random() < 0.3 if want_children is None else want_children
-    null_tags = (not for_order) and rng.random() < 0.3
+    null_tags = rng.random() < 0.3
+    null_mll = rng.random() < 0.25
+    null_bool = rng.random() < 0.15
     # a template shared by most fits, so that the same paths exist with different values
     template = [[nm, gen_obj(rng, rng.randint(0, 3), dom)] for nm in rng.sample(dom["names"], rng.randint(2, 4))]
 
@@ -153,9 +171,9 @@ def gen_db(rng, thorough, want_children=None, for_order=False):
             "name": rng.choice(FIT_NAMES),
             "unique_tag": None if (null_tags and rng.random() < 0.3) else rng.choice(TAGS),
             "path_prefix": rng.choice(PREFIXES),
-            "is_complete": rng.random() < 0.6,
+            "is_complete": None if (null_bool and rng.random() < 0.3) else rng.random() < 0.6,
             "is_grid_search": (i == 0 and children) or rng.random() < 0.15,
-            "mll": rng.choice(MLLS),
+            "mll": None if (null_mll and rng.random() < 0.3) else rng.choice(MLLS),
             "info": info,
             "parent": parent,
         })
@@ -222,11 +240,14 @@ def gen_attr(rng, db):
     f = rng.choice(db)
     r = rng.random()
     if r < 0.27:
-        attr = rng.choice(["name", "unique_tag", "path_prefix"])
-        v = f[attr] if rng.random() < 0.7 else rng.choice(FIT_NAMES + TAGS + ["it's"])
+        attr = rng.choice(["name", "unique_tag", "path_prefix", "parent_id", "id"])
+        if attr in ("parent_id", "id"):
+            v = fit_attr(f, attr) if rng.random() < 0.7 else rng.choice([g["id"] for g in db] + [None])
+        else:
+            v = f[attr] if rng.random() < 0.7 else rng.choice(FIT_NAMES + TAGS + ["it's"])
         return ["attr_eq", attr, v]
     if r < 0.37:
-        return ["attr_eqn", "max_log_likelihood", f["mll"] if rng.random() < 0.7 else rng.choice(MLLS)]
+        return ["attr_eqn", "max_log_likelihood", f["mll"] if (f["mll"] is not None and rng.random() < 0.7) else rng.choice(MLLS)]
     if r < 0.6:
         attr = rng.choice(["name", "path_prefix", "unique_tag"])
         t = f[attr] or "t1"
@@ -376,7 +397,7 @@ def ill_formed(p):
 BROAD = [["attr_contains", "path_prefix", "p"], ["attr_contains", "path_prefix", "o"], ["attr_contains", "name", "i"],
          ["attr_contains", "name", "r"], ["or", ["attr_bool", "is_complete"], ["attr_contains", "name", "f"]],
          ["attr_in", "path_prefix", "zp/qout"], ["attr_eqb", "is_complete", True]]
-ORDER_ATTRS = ["name", "path_prefix", "max_log_likelihood", "is_complete", "is_grid_search", "unique_tag"]
+ORDER_ATTRS = ["name", "path_prefix", "max_log_likelihood", "is_complete", "is_grid_search", "unique_tag", "parent_id"]
 
 
 def gen_slice(rng, n, open_prob=0.45):
@@ -385,6 +406,152 @@ def gen_slice(rng, n, open_prob=0.45):
     if rng.random() < open_prob:
         return [idx(), None]
     return [idx(), idx()]
+
+
+def gen_slice_chain(rng, n):
+    """2-3 chained slices whose first window ends before the end of the selection (fits exist beyond it), followed by
+    open-ended / negative / bounded slices: every later slice must be composed with the limit already carried."""
+    n = max(n, 2)
+    a = rng.randint(0, max(0, n - 3))
+    b = rng.randint(a + 1, max(a + 1, n - 1))
+    first = rng.choice([[a, b], [None, b], [a, b - n], [a - n, b], [None, b - n]])
+
+    def later(m):
+        m = max(m, 1)
+        k = rng.randint(1, min(3, m))
+        r = rng.random()
+        if r < 0.4:
+            return [k, None]                      # open-ended, start >= 1
+        if r < 0.55:
+            return [-rng.randint(1, m), None]     # open-ended, negative start
+        if r < 0.7:
+            return [k, rng.randint(k, m + 2)]
+        if r < 0.8:
+            return [None, -rng.randint(1, m)]
+        if r < 0.9:
+            return [k, -rng.randint(0, 2) or None]
+        return [0, None] if rng.random() < 0.5 else [None, None]
+    width = b - a
+    chain = [first, later(width)]
+    if rng.random() < 0.5:
+        chain.append(later(max(width - 1, 1)))
+    return chain
+
+
+def gen_chain_case(rng, db):
+    """a selection with many fits (no predicate or a broad one), ordered totally, then a chain of slices"""
+    n = len(db)
+    keys = [[a, rng.random() < 0.4] for a in rng.sample(ORDER_ATTRS, rng.randint(0, 1))]
+    keys.append(["id", rng.random() < 0.3])
+    top_only = rng.random() < 0.35
+    m = len([f for f in db if f["parent"] is None]) if top_only else n
+    chain = gen_slice_chain(rng, m)
+    if rng.random() < 0.5:
+        return {"kind": "order", "db": db, "pred": rng.choice(BROAD), "top_only": top_only, "keys": keys,
+                "slices": chain, "index": rng.randint(-n, n - 1)}
+    ops = [["query", rng.choice(BROAD)]] if rng.random() < 0.3 else []
+    ops += [["order", a, r] for a, r in keys]
+    ops += [["slice", a, b, None] for a, b in chain]
+    return {"kind": "ops", "db": db, "top_only": top_only, "ops": ops, "index": rng.randint(-n, n - 1)}
+
+
+GRID_MLLS = [-0.5, 1.0, 2.5]          # few values: ties between the children of one grid search are common
+
+
+def gen_grid_db(rng, thorough):
+    """grid searches with children (ties and NULLs in max_log_likelihood, a grid search without children, one whose
+    children all have a NULL likelihood, a nested grid search, a parent that is not a grid search), plus unrelated
+    fits; inserted in an order unrelated to the ids"""
+    db = gen_db(rng, thorough, want_children=False)
+    while len(db) < 6:
+        db = gen_db(rng, thorough, want_children=False)
+    dom = dom_of(db)
+    n = len(db)
+    grids = sorted(rng.sample(range(n), rng.randint(1, min(3, n // 2))))
+    plain_parent = rng.choice([i for i in range(n) if i not in grids]) if rng.random() < 0.2 else None
+    all_null = rng.choice(grids) if rng.random() < 0.25 else None
+    for i, f in enumerate(db):
+        f["parent"] = None
+        f["is_grid_search"] = i in grids or (rng.random() < 0.05)
+        r = rng.random()
+        f["mll"] = None if r < 0.1 else rng.choice(GRID_MLLS) if r < 0.8 else rng.choice(MLLS)
+    for i, f in enumerate(db):
+        if i in grids:
+            if rng.random() < 0.25:
+                lower = [g for g in grids if g < i]
+                if lower:
+                    f["parent"] = db[rng.choice(lower)]["id"]        # a nested grid search
+            continue
+        if i == plain_parent:
+            continue
+        r = rng.random()
+        if r < 0.8:
+            g = rng.choice(grids)
+            f["parent"] = db[g]["id"]
+            if g == all_null:
+                f["mll"] = None
+        elif r < 0.8 and plain_parent is not None:
+            f["parent"] = db[plain_parent]["id"]
+    rng.shuffle(db)
+    _DOMS[id(db)] = dom
+    return db
+
+
+def gen_gops(rng, db, make_pred):
+    """query / order_by / slice / grid_searches / children / best_fits.  A slice is only taken when the id is among
+    the order keys (positions determined); shadowed path segments are not generated here"""
+    n = len(db)
+
+    def a_pred():
+        for _ in range(20):
+            p = rng.choice(BROAD) if rng.random() < 0.65 else make_pred(1)
+            if not has_shadow(p) and not ill_formed(p):
+                return p
+        return rng.choice(BROAD)
+    ops, keys = [], []
+
+    def order(attr=None):
+        attr = attr or rng.choice(ORDER_ATTRS + ["id"])
+        ops.append(["order", attr, rng.random() < 0.4])
+        keys.append(attr)
+
+    def slice_():
+        if "id" not in keys:
+            order("id")
+        start, stop = gen_slice(rng, n, 0.3)
+        ops.append(["slice", start, stop, rng.choice([1, 2, -1]) if rng.random() < 0.1 else None])
+    if rng.random() < 0.4:
+        ops.append(["query", a_pred()])
+    if rng.random() < 0.15:
+        order()
+    if rng.random() < 0.08:
+        slice_()
+    if rng.random() < 0.04:
+        ops.append([rng.choice(["children", "best"])])          # not a GridSearchAggregator yet: AttributeError
+    ops.append(["grid"])
+    keys[:] = ["id"]
+    for _ in range(rng.choice([0, 1, 1, 2, 2, 3, 4])):
+        if ops[-1][0] == "best" and rng.random() < 0.6:
+            break                      # composing a BestFitQuery raises (known finding): keep most best_fits() last
+        r = rng.random()
+        if r < 0.22:
+            ops.append(["query", a_pred()])
+        elif r < 0.55:
+            ops.append(["children"])
+            keys[:] = ["parent_id"]
+        elif r < 0.75:
+            ops.append(["best"])
+            keys[:] = ["parent_id"]
+        elif r < 0.87:
+            order()
+        elif r < 0.96:
+            slice_()
+        else:
+            ops.append(["grid"])
+            keys[:] = ["id"]
+    if rng.random() < 0.4 and "id" not in keys:
+        order("id")
+    return ops
 
 
 def gen_ops(rng, db, pred, make_pred):
@@ -416,7 +583,7 @@ def gen_cases(ctx):
     rng = ctx.rng
     thorough = ctx.tier == "thorough"
     n_db = 300 if thorough else 60
-    per_db = 16 if thorough else 12
+    per_db = 16 if thorough else 10
     cases = []
     for d in range(n_db):
         for_order = rng.random() < 0.5
@@ -459,11 +626,23 @@ def gen_cases(ctx):
             else:
                 cases.append({"kind": "query", "db": db, "pred": pred, "top_only": rng.random() < 0.5,
                               "chain": pred[0] == "and" and rng.random() < 0.4})
+        if len(db) >= 4:
+            for _ in range(2 if d % 2 == 0 else 1):
+                cases.append(gen_chain_case(rng, db))
+        if d % (3 if thorough else 2) == 0:
+            gdb = gen_grid_db(rng, thorough)
+            gpool = lambda: make_pool(rng, gdb, 3)
+
+            def make_gpred(maxdepth=2):
+                return gen_pred(rng, gdb, rng.randint(0, maxdepth), gpool(), "tame")
+            for _ in range(5):
+                cases.append({"kind": "grid", "db": gdb, "top_only": rng.random() < 0.5,
+                              "ops": gen_gops(rng, gdb, make_gpred), "index": rng.randint(-len(gdb), len(gdb) - 1)})
     return cases
 
 
 def case_preds(c):
-    if c["kind"] == "ops":
+    if c["kind"] in ("ops", "grid"):
         return [o[1] for o in c["ops"] if o[0] == "query"]
     return [c["pred"]]
 
@@ -500,7 +679,8 @@ def make_rank(c):
     acc = []
     for f in c["db"]:
         numbers_of_obj(f["inst"], acc)
-        acc.append(f["mll"])
+        if f["mll"] is not None:
+            acc.append(f["mll"])
     for p in case_preds(c):
         numbers_of_pred(p, acc)
     vals = sorted(set(Fraction(x) for x in acc))
@@ -519,11 +699,11 @@ def c_obj(o, rk):
 
 
 def c_fit(f, rk):
-    strs = clist([cpair(cstr(a), copt(f[a], cstr)) for a in ("name", "unique_tag", "path_prefix")])
-    nums = clist([cpair(cstr("max_log_likelihood"), cZ(rk(f["mll"])))])
-    bools = clist([cpair(cstr(a), cbool(f[a])) for a in ("is_complete", "is_grid_search")])
+    strs = clist([cpair(cstr(a), copt(fit_attr(f, a), cstr)) for a in ("name", "unique_tag", "path_prefix", "parent_id", "id")])
+    nums = clist([cpair(cstr("max_log_likelihood"), cZ(rk(f["mll"])))] if f["mll"] is not None else [])     # NULL = no entry
+    bools = clist([cpair(cstr(a), cbool(f[a])) for a in ("is_complete", "is_grid_search") if f[a] is not None])
     info = clist([cpair(cstr(k), cstr(v)) for k, v in f["info"].items()])
-    return "(mkFit %s %s %s %s %s %s %s)" % (cstr(f["id"]), c_obj(f["inst"], rk), strs, nums, bools, info, cbool(f["parent"] is not None))
+    return "(mkFit %s %s %s %s %s %s %s)" % (cstr(f["id"]), c_obj(f["inst"], rk), strs, nums, bools, info, copt(f["parent"], cstr))
 
 
 def c_const(c, rk):
@@ -580,6 +760,16 @@ def c_key(k):
     return cpair(c_okey(attr), cbool(rev))
 
 
+def c_gop(o, rk):
+    if o[0] == "query":
+        return "(GQuery %s)" % c_pred(o[1], rk)
+    if o[0] == "order":
+        return "(GOrder %s %s)" % (c_okey(o[1]), cbool(o[2]))
+    if o[0] == "slice":
+        return "(GSlice %s %s %s)" % (copt(o[1], cZ), copt(o[2], cZ), copt(o[3], cZ))
+    return {"grid": "GGrid", "children": "GChildren", "best": "GBestFits"}[o[0]]
+
+
 def c_op(o, rk):
     if o[0] == "query":
         return "(OQuery %s)" % c_pred(o[1], rk)
@@ -605,7 +795,7 @@ def c_outcome(c, r):
         if any(has_shadow(p) for p in case_preds(c)):
             return "(RExc EShadow)"        # whatever the non-query object made of the predicate raised
         tok = {("AssertionError", "construct"): "EAssertion", ("TypeError", "construct"): "ETypeError",
-               ("OperationalError", "execute"): "ESql"}.get((r["exc"], r.get("stage")), "EFuel")
+               ("OperationalError", "execute"): "ESql", ("AttributeError", "grid"): "EAttr"}.get((r["exc"], r.get("stage")), "EFuel")
         return "(RExc %s)" % tok
     return "(RIds %s)" % clist([cstr(i) for i in r["ids"]])
 
@@ -622,6 +812,9 @@ def coq_case(c, r):
     idx = "None"
     if "index_id" in r:
         idx = "(Some %s)" % cpair(cZ(c["index"]), cstr(r["index_id"]))
+    if c["kind"] == "grid":
+        return "CGrid %s %s %s %s %s %s" % (db, cbool(c["top_only"]), clist([c_gop(o, rk) for o in c["ops"]]),
+                                            c_outcome(c, r), cZ(r.get("len", 0)), idx)
     return "COps %s %s %s %s %s %s" % (db, cbool(c["top_only"]), clist([c_op(o, rk) for o in c["ops"]]),
                                        c_outcome(c, r), cZ(r.get("len", 0)), idx)
 
@@ -716,7 +909,7 @@ def check_dump(c, dump):
         for a in ("name", "unique_tag", "path_prefix", "is_complete", "is_grid_search", "parent", "info"):
             if d[a] != f[a]:
                 return "stored %s of %s is %r, expected %r" % (a, f["id"], d[a], f[a])
-        if d["mll"] != float(f["mll"]):
+        if d["mll"] != (None if f["mll"] is None else float(f["mll"])):
             return "stored max_log_likelihood differs"
     return None
 
@@ -725,19 +918,18 @@ def sort_key_fn(c):
     by_id = {f["id"]: f for f in c["db"]}
 
     def keyval(fid, attr):
-        f = by_id[fid]
-        return f["mll"] if attr == "max_log_likelihood" else f[attr]
+        return fit_attr(by_id[fid], attr)
 
     return keyval
 
 
-def is_sorted(c, ids):
+def is_sorted(c, ids, keys=None):
+    """adjacent fits are in key order, first key first; a NULL key is smaller than every value (SQLite): NULLs come
+    first under an ascending key and last under a reversed one"""
     keyval = sort_key_fn(c)
     for a, b in zip(ids, ids[1:]):
-        for attr, rev in c["keys"]:
-            x, y = keyval(a, attr), keyval(b, attr)
-            if x is None or y is None:
-                continue
+        for attr, rev in (c["keys"] if keys is None else keys):
+            x, y = null_key(keyval(a, attr)), null_key(keyval(b, attr))
             if x == y:
                 continue
             if (x < y) != (not rev):
@@ -824,8 +1016,7 @@ def ops_oracle(c, r):
     by_id = {f["id"]: f for f in c["db"]}
 
     def keyval(fid, attr):
-        f = by_id[fid]
-        return fid if attr == "id" else f["mll"] if attr == "max_log_likelihood" else f[attr]
+        return null_key(fit_attr(by_id[fid], attr))
     cur, keys, k = list(top), [], 0
     sel_only = list(top)                    # the selection alone, for classifying a failure
     for o in c["ops"]:
@@ -858,7 +1049,147 @@ def ops_oracle(c, r):
     return None
 
 
+def order_keys_null(c, r):
+    """for a case with order keys: does a returned fit have a NULL in one of them?"""
+    if c["kind"] == "order":
+        keys = [k[0] for k in c["keys"]]
+    elif c["kind"] in ("ops", "grid"):
+        keys = [o[1] for o in c["ops"] if o[0] == "order"]
+        if c["kind"] == "grid":
+            keys += ["parent_id"] if any(o[0] in ("children", "best") for o in c["ops"]) else []
+    else:
+        return None
+    keys = [k for k in keys if k != "id"]
+    if not keys or "ids" not in r:
+        return None
+    by_id = {f["id"]: f for f in c["db"]}
+    got = r.get("base", r["ids"])
+    n = sum(1 for i in got for k in keys if fit_attr(by_id[i], k) is None)
+    return "no-null" if n == 0 else "null-key" if len(got) > 1 else "null-key-single-fit"
+
+
+def chain_shape(c):
+    """shape of the slices of a case: per slice o = open-ended start>=1, n = negative bound, b = bounded, - = [:] / [0:]"""
+    if c["kind"] == "order":
+        sl = c["slices"]
+    elif c["kind"] == "ops":
+        sl = [[o[1], o[2]] for o in c["ops"] if o[0] == "slice"]
+    else:
+        return None
+    if len(sl) < 2:
+        return None
+    def sh(a, b):
+        if (a is not None and a < 0) or (b is not None and b < 0):
+            return "n"
+        if b is None:
+            return "o" if a else "-"
+        return "b"
+    return "".join(sh(a, b) for a, b in sl)
+
+
+def grid_classes(c):
+    """defect classes of a grid-search operation sequence, computed from the operations only"""
+    out = []
+    seen_slice = seen_best = False
+    for o in c["ops"]:
+        if o[0] == "slice":
+            seen_slice = True
+            if o[3] not in (None, 1):
+                out.append("slice-step-ignored")
+            if seen_best == "composed":
+                out.append("best-fit-query-not-composable")
+            continue
+        if seen_slice:
+            out.append("slice-lost-by-later-operation")
+        if o[0] in ("query", "children", "best", "grid") and seen_best:
+            out.append("best-fit-query-not-composable")
+            seen_best = "composed"
+        if o[0] == "best":
+            seen_best = seen_best or True
+    return sorted(set(out))
+
+
+def gops_oracle(c, r):
+    """An aggregator is used like a list of fits.  query = filter; order_by = sort by all keys so far (NULL smallest);
+    slice = list slicing; grid_searches = the grid searches among the selected fits, child fits included, ordered by
+    id; children = every fit whose parent is in the list, ordered by parent_id; best_fits = for every fit of the list
+    its children of maximal max_log_likelihood (none when no child has a likelihood), ordered by parent_id.
+    Positions are compared when the id is among the keys; otherwise the set and the sortedness by the keys.
+    Returns None or (message, slice_related)."""
+    by_id = {f["id"]: f for f in c["db"]}
+    everything = [f["id"] for f in c["db"]]
+    first_grid = next((i for i, o in enumerate(c["ops"]) if o[0] == "grid"), len(c["ops"]))
+    early = any(o[0] in ("children", "best") for o in c["ops"][:first_grid])
+    if "exc" in r:
+        if early and r["exc"] == "AttributeError":
+            return None             # a plain Aggregator has no children() / best_fits()
+        return ("operation sequence raised %s (%s) at %s" % (r["exc"], r.get("msg", "")[:80], r.get("stage")), False)
+    if early:
+        return ("children() / best_fits() accepted on a plain Aggregator", False)
+
+    def keyval(fid, attr):
+        return null_key(fit_attr(by_id[fid], attr))
+
+    def resort():
+        for attr, rev in reversed(keys):
+            cur.sort(key=lambda i: keyval(i, attr), reverse=rev)
+    cur = [i for i in everything if by_id[i]["parent"] is None or not c["top_only"]]
+    allsel = list(everything)            # the selection before the top-level filter (grid_searches lifts it)
+    keys, k, sliced = [], 0, False
+    for o in c["ops"]:
+        if o[0] == "query":
+            ok = set(r["direct_ops"][k])
+            k += 1
+            cur = [i for i in cur if i in ok]
+            allsel = [i for i in allsel if i in ok]
+        elif o[0] == "order":
+            keys.append((o[1], o[2]))
+            resort()
+        elif o[0] == "slice":
+            cur = cur[slice(o[1], o[2], o[3])]
+            sliced = True
+        elif o[0] == "grid":
+            src = cur if sliced else allsel
+            cur = [i for i in src if by_id[i]["is_grid_search"]]
+            allsel = list(cur)
+            keys = [("id", False)]
+            resort()
+        else:
+            parents = set(cur)
+            kids = [i for i in everything if by_id[i]["parent"] in parents]
+            if o[0] == "best":
+                best = []
+                for i in kids:
+                    m = by_id[i]["mll"]
+                    sib = [by_id[j]["mll"] for j in kids if by_id[j]["parent"] == by_id[i]["parent"] and by_id[j]["mll"] is not None]
+                    if m is not None and all(Fraction(x) <= Fraction(m) for x in sib):
+                        best.append(i)
+                kids = best
+            cur = kids
+            allsel = list(cur)
+            keys = [("parent_id", False)]
+            resort()
+    ids = r["ids"]
+    if len(set(ids)) != len(ids):
+        return ("a fit is returned more than once: %s" % ids, False)
+    shown = [o if o[0] != "query" else "query" for o in c["ops"]]
+    if sorted(ids) != sorted(cur):
+        return ("operations %s return %s, expected %s" % (shown, sorted(ids), sorted(cur)), sliced)
+    msg = is_sorted(c, ids, keys)
+    if msg:
+        return (msg, sliced)
+    if any(a == "id" for a, _ in keys) and ids != cur:
+        return ("operations %s return %s, expected %s" % (shown, ids, cur), sliced)
+    if r.get("len") != len(ids) or r.get("iter_ids") != ids:
+        return ("len() / iteration differ from .fits", True)
+    if "index_id" in r and r["index_id"] != ids[c["index"]]:
+        return ("integer index returns another fit", True)
+    return None
+
+
 def nontrivial(c, r):
+    if c["kind"] == "grid":
+        return len(c["ops"]) >= 2 and len(r.get("ids", [])) > 0
     if c["kind"] == "ops":
         return len(c["ops"]) >= 3 and len(r.get("ids", [])) > 0
     n_direct = len(r.get("direct", []))
@@ -871,11 +1202,14 @@ def regenerate(repo=None):
 
 def run(ctx):
     import time
-    ctx.rule = ("a case is (database of 1-12 fits with nested instances, then either one predicate tree over path comparisons / "
-                "type tests / fit attributes / info with and, or, not [+ ordering keys and [a:b] slices], or an arbitrary sequence "
-                "of query / order_by / slice-with-step operations); a query / order case is non-trivial when the predicate has a "
-                "junction or negation and, evaluated directly on the stored objects, selects some but not all fits; an operation "
-                "sequence when it has >= 3 operations and a non-empty result; distinct = distinct abstract input")
+    ctx.rule = ("a case is (database of 1-12 fits with nested instances, NULL columns, parent links, then either one predicate tree "
+                "over path comparisons / type tests / fit attributes (incl. parent_id, id) / info with and, or, not [+ ordering keys "
+                "and [a:b] slices, incl. chains of 2-3 slices], or an arbitrary sequence of query / order_by / slice-with-step "
+                "operations, or (grid-search databases: grid searches with children, ties and NULL likelihoods, nested grid "
+                "searches) an arbitrary sequence of query / order_by / slice / grid_searches / children / best_fits); a query / "
+                "order case is non-trivial when the predicate has a junction or negation and, evaluated directly on the stored "
+                "objects, selects some but not all fits; an operation sequence when it has >= 3 (grid: >= 2) operations and a "
+                "non-empty result; distinct = distinct abstract input")
     ctx.trusted = [
         "Coq 8.16.1 kernel incl. vm_compute",
         "SQLite's evaluation of the emitted SQL and SQLAlchemy's persistence of Fit/Object rows: covered by correspondence only",
@@ -889,7 +1223,10 @@ def run(ctx):
         "child names are unique below every stored object (attributes, list indices, string dict keys); info keys unique per fit",
         "within one database every numeric value has one Python spelling (1 / 1.0 / True are not mixed as constants)",
         "type tests mean class_path equality (a subclass instance does not satisfy a test for its base class)",
-        "list positions are compared only when the requested keys make the order total; NULL order keys are not generated",
+        "list positions are compared only when the id is among the order keys (ORDER BY leaves ties unspecified); otherwise the "
+        "returned list must be the right set and sorted by the keys; NULL keys sort as the smallest value (SQLite; other "
+        "engines, e.g. PostgreSQL, put NULLs last under ASC: outside the claim)",
+        "max_log_likelihood is never NaN; GridSearchAggregator.cell_number (order by fit.model.order_no) is not exercised",
     ]
     t0 = time.time()
     timing = ctx.notes.setdefault('timing_s', {})
@@ -976,15 +1313,26 @@ def run(ctx):
         ctx.hist("outcome", r.get("exc", "ok"))
         if c["kind"] == "ops":
             ctx.hist("ops", " ".join(o[0][0] for o in c["ops"]))
+        elif c["kind"] == "grid":
+            ctx.hist("grid_ops", " ".join({"grid": "G", "children": "C", "best": "B"}.get(o[0], o[0][0]) for o in c["ops"]))
+            ctx.hist("grid_result", "exc" if "exc" in r else "empty" if not r["ids"] else "some")
+            if "ids" in r and c["ops"][-1][0] == "best" or (len(c["ops"]) > 1 and c["ops"][-2][0] == "best" and c["ops"][-1][0] == "order"):
+                par = [f["parent"] for f in c["db"] if f["id"] in set(r.get("ids", []))]
+                ctx.hist("best_fits_shape", "tie" if len(set(par)) < len(par) else "one-per-grid" if par else "none")
         else:
             ctx.hist("selected", "none" if not r["direct"] else "all" if len(r["direct"]) == len(c["db"]) else "some")
+        if chain_shape(c):
+            ctx.hist("slice_chain", chain_shape(c))
         ctx.oracle["cases"] += 1
         if "dump" in r:
             msg = check_dump(c, r["dump"])
             if msg:
                 ctx.oracle["failures"] += 1
                 ctx.failure("oracle", msg, c, classes=[], impl=r)
-        res = ops_oracle(c, r) if c["kind"] == "ops" else oracle(c, r)
+        null_key_seen = order_keys_null(c, r)
+        if null_key_seen is not None:
+            ctx.hist("order_key_null", null_key_seen)
+        res = ops_oracle(c, r) if c["kind"] == "ops" else gops_oracle(c, r) if c["kind"] == "grid" else oracle(c, r)
         small = {k: v for k, v in r.items() if k != "dump"}
         if i in regression:
             sig, fn = regression[i]
@@ -1009,7 +1357,9 @@ def run(ctx):
         if res:
             msg, slice_related = res
             ctx.oracle["failures"] += 1
-            if c["kind"] == "ops":
+            if c["kind"] == "grid":
+                cl = classes + grid_classes(c)
+            elif c["kind"] == "ops":
                 cl = classes + slice_classes(c)
             else:
                 cl = slice_classes(c) if slice_related else classes
@@ -1034,15 +1384,19 @@ def run(ctx):
 
 MANIFEST = {
     "text": "Coq 8.16 model of the aggregator query objects (NamedQuery nesting, junction flattening / de-duplication / merge by name, "
-            "negation, JOIN and NULL semantics of the emitted SQL on the flattened instance tree, LIKE, ordering, offset/limit slicing, "
-            "the Aggregator state machine over query / order_by / slice) with theorems for all predicate trees and all databases with "
+            "negation, JOIN and NULL semantics of the emitted SQL on the flattened instance tree, LIKE, ordering incl. NULL keys "
+            "(SQLite: NULL smallest), offset/limit slicing, the parent relation (ChildQuery), best fits (BestFitQuery), the Aggregator / "
+            "GridSearchAggregator state machine over query / order_by / slice / grid_searches / children / best_fits) with theorems for all predicate trees and all databases with "
             "unique child names: the compiled query selects exactly the fits on which the predicate is true, and query+order+slices "
-            "return the Python slices of the sorted selection, under an explicit guard that excludes the defect classes of the code "
+            "return the Python slices of the sorted selection (the sorted permutation is unique when the id is a key, NULL keys first under "
+            "ASC and last under DESC), children() returns exactly the fits whose parent is selected, best_fits() exactly the children "
+            "of maximal likelihood per grid search, and any sequence of these operations returns its list meaning, under an explicit guard that excludes the defect classes of the code "
             "(each refuted by a vm_compute witness and replayed on the real code); vm_compute correspondence with the running code on "
             "generated (database, predicate / operation sequence) cases and a direct oracle evaluating the predicates on the objects "
             "read back from SQLite and folding the operations over a Python list",
     "note": "Trusted: Coq kernel + vm_compute, SQLite/SQLAlchemy (correspondence only), the reading of SQL as tree semantics, the "
-            "rank abstraction of numbers, the harness. Outside the claim: NULL order keys, BestFitQuery/ChildQuery, grid-search "
-            "aggregators, objects other than plain instances / lists / tuples / dicts / numbers / strings / None.",
+            "rank abstraction of numbers, the harness. Outside the claim: NULL ordering of engines other than SQLite, "
+            "GridSearchAggregator.cell_number / CellAggregator (needs fit.model.order_no), NaN likelihoods, objects other than plain "
+            "instances / lists / tuples / dicts / numbers / strings / None.",
     "technique": "machine-checked proof in Coq (hand-written model) + vm_compute correspondence + direct property oracle",
 }
